@@ -928,3 +928,66 @@ func c11R16b(c *Ctx, r *Report) {
 	r.Check(widenPos != token.NoPos && somePos > widenPos, rule, fn.Name(), "a value for an optional place is wrapped with its presence flag", c.pos(fn.Decl.Pos()),
 		"a plain value assigned to an optional place is stored as the payload only: `let a: i32? = 5; let b: i32? = none; if a != none { b = a; } io::Println(b ?? -1);` prints -1, and a struct assigned to a narrowed `P?` is stored as its address")
 }
+
+// ---- C13.R25: a float literal is not evaluated in arbitrary precision before its exponent was bounded ------------
+
+func init() {
+	lateInits = append(lateInits, func() {
+		props["C13"].Quick = append(props["C13"].Quick, c13R25)
+		props["C13"].Explanation += " (R25) math/big parses a float (big.ParseFloat, Float.SetString, Float.Parse) only in a function that has first compared the length of the exponent's digits with a constant and returned: the cost of the arbitrary-precision parse grows with the exponent's value, so `1e400000000` must not reach it."
+	})
+}
+
+func c13R25(c *Ctx, r *Report) {
+	const rule = "C13.R25"
+	r.Describe(rule, "all non-test packages: every call of big.ParseFloat, (*big.Float).SetString or (*big.Float).Parse is preceded in its function by an if statement that compares a len(…) with a constant and returns")
+	n := 0
+	for _, p := range c.Pkgs {
+		rel := relOf(p.PkgPath)
+		if strings.HasPrefix(rel, "tools") {
+			continue
+		}
+		for _, fn := range c.AllFns(rel) {
+			if fn.Decl.Body == nil {
+				continue
+			}
+			info := fn.Info()
+			for _, cl := range callsIn(fn.Decl.Body, true) {
+				f := callee(info, cl)
+				if f == nil || f.Pkg() == nil || f.Pkg().Path() != "math/big" {
+					continue
+				}
+				isFloatParse := f.Name() == "ParseFloat"
+				if recv, ok := isBigMethod(f); ok && recv == "Float" && (f.Name() == "SetString" || f.Name() == "Parse") {
+					isFloatParse = true
+				}
+				if !isFloatParse {
+					continue
+				}
+				n++
+				bounded := false
+				ast.Inspect(fn.Decl.Body, func(x ast.Node) bool {
+					ifs, ok := x.(*ast.IfStmt)
+					if !ok || ifs.Pos() > cl.Pos() || !thenTerminates(ifs) {
+						return true
+					}
+					for _, cj := range conjuncts(ifs.Cond) {
+						b, ok := cj.(*ast.BinaryExpr)
+						if !ok || !(b.Op == token.GTR || b.Op == token.GEQ) {
+							continue
+						}
+						if lc, ok := ast.Unparen(b.X).(*ast.CallExpr); ok {
+							if id, ok := lc.Fun.(*ast.Ident); ok && id.Name == "len" && constOf(info, b.Y) != nil {
+								bounded = true
+							}
+						}
+					}
+					return true
+				})
+				r.Check(bounded, rule, fn.Name(), "math/big float parse after an exponent bound", c.pos(cl.Pos()),
+					"a float literal is handed to math/big as written: parsing `1e400000000` computes a power of ten with four hundred million digits — `let x: f64 = 1e4000000;` takes 4 s, one more digit in the exponent ten times as long, with no output")
+			}
+		}
+	}
+	r.Floor(rule, n, 1, "arbitrary-precision float parses")
+}
